@@ -6,7 +6,7 @@ LEVEL = 'other'
 FC = 'checks.fam_cmp:'
 EXPLANATION = (
     "Bounded symbolic verification.  mpf_cmp / mpf_lt / mpf_le / mpf_gt / mpf_ge / mpf_eq (including the mpf_sub(s,t,5,floor) "
-    "fallback), the comparison operators of the mpf type against mpf and against Python ints (mpf_convert_rhs/from_int), and the "
+    "fallback), the comparison operators of the mpf type against mpf, Python ints (mpf_convert_rhs/from_int) and Python floats (dyadic float model, from_float), and the "
     "nan/inf/zero cases are executed symbolically from /repo's source and compared with the sign of the exact scaled difference "
     "for ALL mantissas and signs of each operand shape.  Hashing: mpf_hash/_mpf.__hash__ composed with a model of CPython's "
     "slot_tp_hash post-processing is proved equal to the documented numeric hash (value mod 2^61-1 with inverse powers of two, "
@@ -44,6 +44,11 @@ def obligations(tier, seed=0):
         for nneg in ((0, 1) if nbc else (0,)):
             for fn in ('<', '<=', '>', '>=', '==', '!='):
                 add('cmp_int', bc=bc, exp=exp, nbc=nbc, nneg=nneg, fn=fn)
+    # mpf <op> Python float (dyadic float model through from_float)
+    for bc, exp, nbc, fexp in [(5, -2, 4, -1), (5, 3, 4, 4), (3, 0, 3, 0), (7, -7, 1, -3), (9, -3, 12, -6), (60, -7, 53, 0), (4, 1000, 3, 1001), (6, -1074, 2, -1074)]:
+        for nneg in (0, 1):
+            for fn in ('<', '<=', '>', '>=', '==', '!='):
+                add('cmp_int', bc=bc, exp=exp, nbc=nbc, nneg=nneg, fn=fn, fexp=fexp)
     kinds = ['zero', 'inf', 'ninf', 'nan', 'fin']
     for a in kinds:
         for b in kinds:
